@@ -301,10 +301,57 @@ def regex_table(c):
 # ---------------------------------------------------------------------------------------------
 # running the implementation
 # ---------------------------------------------------------------------------------------------
+class UserSeq:
+    """a sequence class of the user's own (iterable, sized, indexable) that is neither a list nor a tuple"""
+    def __init__(self, items):
+        self._items = list(items)
+
+    def __iter__(self):
+        return iter(self._items)
+
+    def __len__(self):
+        return len(self._items)
+
+    def __getitem__(self, i):
+        return self._items[i]
+
+
+# collection-like values that are NOT list / tuple / dict: Other(tag) in a case stands for a fresh one of these.
+# Measured on the unchanged tree: every list / dict field class rejects all of them (the type gates are
+# isinstance(value, (list, tuple)) and isinstance(value, dict)); AnyField and untyped containers hold them as they are.
+def _gen():
+    yield 1
+    yield 2
+
+
+EXOTIC = {
+    1: ("set", lambda: {1, 2}), 2: ("frozenset", lambda: frozenset({1, 2})), 3: ("dict_keys", lambda: {"a": 1, "b": 2}.keys()),
+    4: ("dict_values", lambda: {"a": 1, "b": 2}.values()), 5: ("dict_items", lambda: {"a": 1}.items()), 6: ("range", lambda: range(3)),
+    7: ("generator", _gen), 8: ("list_iterator", lambda: iter([1, 2])), 9: ("bytearray", lambda: bytearray(b"ab")),
+    10: ("deque", lambda: __import__("collections").deque([1, 2])), 11: ("array", lambda: __import__("array").array("i", [1, 2])),
+    12: ("UserSeq", lambda: UserSeq([1, 2])), 13: ("UserDict", lambda: __import__("collections").UserDict({"a": 1})),
+    14: ("mappingproxy", lambda: __import__("types").MappingProxyType({"a": 1})),
+    15: ("ChainMap", lambda: __import__("collections").ChainMap({"a": 1})), 16: ("set", lambda: set()),
+}
+EXOTIC_ALL = [Other(t) for t in sorted(EXOTIC)]
+# the ones copy.deepcopy can carry (configuration-level streams hand values over through a deep copy)
+EXOTIC_COPYABLE = [Other(t) for t in (1, 2, 6, 9, 10, 11, 12, 13, 15, 16)]
+
+
+def exotic_tag(v):
+    name = type(v).__name__
+    if name == "set" and len(v) == 0:
+        return 16
+    for t, (n, _) in EXOTIC.items():
+        if n == name:
+            return t
+    return 0
+
+
 def mk(x):
     """a fresh Python object for the case's plain data"""
     if isinstance(x, Other):
-        return object()
+        return EXOTIC[x.tag][1]() if x.tag in EXOTIC else object()
     if isinstance(x, list):
         return [mk(i) for i in x]
     if isinstance(x, tuple):
@@ -336,7 +383,7 @@ def conv(v, reg):
         return Proxy(_fid(reg, v.dict_field), {conv(k, reg): conv(x, reg) for k, x in dict.items(v)})
     if t is dict:
         return {conv(k, reg): conv(x, reg) for k, x in v.items()}
-    return Other(0)
+    return Other(exotic_tag(v))
 
 
 def _run(c):
@@ -528,7 +575,7 @@ def _declared_class(fd, v):
         return []
     if k == "list":
         if not typed_list(fd):
-            return [] if type(v) is list else ["untyped list field stores a %s" % type(v).__name__]
+            return [] if type(v) is list else ["untyped list field stores a %s" % (EXOTIC.get(v.tag, ("object",))[0] if isinstance(v, Other) else type(v).__name__)]
         if not (isinstance(v, Proxy) and isinstance(v.items, list)):
             return ["typed list field stores a %s" % type(v).__name__]
         bad = []
@@ -685,7 +732,7 @@ def nontrivial(c, obs):
 # generation: deterministic matrix, then random
 # ---------------------------------------------------------------------------------------------
 NAN, INF = float("nan"), float("inf")
-WRONG = [None, True, False, 0, 1, -1, 2.5, NAN, "", "x", b"x", [], [1], (), (1,), {}, {"a": 1}, Other(0)]
+WRONG = [None, True, False, 0, 1, -1, 2.5, NAN, "", "x", b"x", [], [1], (), (1,), {}, {"a": 1}, Other(0), Other(1), Other(6), Other(10), Other(13)]
 
 
 def near(b):
@@ -908,9 +955,9 @@ def matrix():
     # ---- untyped ListField / DictField
     for req in (False, True):
         for anyitem in (False, True):
-            for x in [None, [], [1, "a"], [None], (), (1, 2), ((1,),), [(1,)], [[1], {"a": b"x"}], "ab", "", 5, {}, {"a": 1}, b"ab", True, Other(0)]:
+            for x in [None, [], [1, "a"], [None], (), (1, 2), ((1,),), [(1,)], [[1], {"a": b"x"}], "ab", "", 5, {}, {"a": 1}, b"ab", True, Other(0)] + EXOTIC_ALL + [[Other(1)], (Other(6),)]:
                 add({"k": "list", "req": req, "item": None, "anyitem": anyitem}, x)
-        for x in [None, {}, {"a": 1}, {"a": {"b": [1]}}, {1: "x", "1": "y"}, {True: 1}, {None: None}, {(1, 2): 3}, {2.5: 1}, [], [("a", 1)], (), "ab", 5, True]:
+        for x in [None, {}, {"a": 1}, {"a": {"b": [1]}}, {1: "x", "1": "y"}, {True: 1}, {None: None}, {(1, 2): 3}, {2.5: 1}, [], [("a", 1)], (), "ab", 5, True] + EXOTIC_ALL + [{"a": Other(1)}]:
             add({"k": "dict", "req": req}, x)
     for x in [None, [], [1], (1,), "ab", 5, {"a": 1}]:
         add({"k": "list", "req": False, "item": None}, x, op=1)
@@ -927,7 +974,7 @@ def matrix():
              [b"a", "b", b""], [b"\xff\x00"], ["\ud800"], ["t", "F", 0, 1.5], ["maybe"], [1.5, "2", 3], [-0.5], [NAN], ["1.2.3.4", "10.0.0.1"], ["1.2.3.04"],
              ["10.0.0.0/8", "10.1.2.3"], ["10.0.0.0/24", "10.0.0.0/25"], ["host", "a-b"], ["1.2.3.4"], ["Ab", "ab", "aab"], ["aAb"], ["ba"], [[1, 2], [3]], [[]],
              [[b"x"], [b"y", "z"]], [[11]], [["1"], ("2",)], [(1, 2)], [1, [2]], [{"A": 1}, {}], [{"A": 1, "a": 2}], [{"a": "x"}], [{}], "12", "", 5, {"a": 1}, {},
-             b"ab", True, Other(0), [Other(0)]]
+             b"ab", True, Other(0), [Other(0)]] + EXOTIC_ALL
     for it in items:
         for req in (False, True):
             for x in lvals:
@@ -947,7 +994,7 @@ def matrix():
              {1: " a ", 2: "b"}, {True: "a"}, {"1": "a", 1: "b", " 1": "c"}, {"a": b"x", "b": "y"}, {b"k": 1, "k": 2}, {b"\x00\xff": None}, {"t": "f", "F": "T"},
              {"t": None}, {0: 1, "f": 0, False: 1}, {"Ab": 1, "ab": 2}, {"k": "Ab"}, {"k": [1, "2"]}, {"k": [1], "": [2]}, {"k": "12"}, {"1.2.3.4": "10.0.0.0/8"},
              {"1.2.3.4": "10.0.0.0/7"}, {"1.2.3.4": "1.0.0.0/4"}, {"k": {"x": b"y", "z": "w"}}, {"k": {}}, {"k": {"x": 5}}, {2.5: 1}, {(1,): 1}, [("a", 1)], [], (), "ab",
-             5, True, Other(0)]
+             5, True, Other(0)] + EXOTIC_ALL
     for kf, vf in dfields:
         for req in (False, True):
             for x in dvals:
